@@ -23,7 +23,7 @@ CHECKS.update({
    text="TLC explores all interleavings of two-phase writes, deletes, evictions and expiries of Store.tla for small constants (removal of a map slot is by identity); "
         "TLC-generated interleavings are replayed into the real cache and free-running concurrent histories (distinct value per write; plain, loading, doorkeeper, entry pool) are recorded; "
         "TLC validates every trace against the sequential map: each hit returns the latest value of that key's entry, each miss is justified, returned values equal the values read under the lock, and the resident set equals the history at every quiescent snapshot.",
-   note="Linearization points are the hook events emitted under the shard lock (trusted to be placed inside the critical sections); exhaustive only for the small constants."),
+   note="Linearization points are the hook events emitted under the shard lock (trusted to be placed inside the critical sections); exhaustive only for the small constants. The atomicity of a shard section is the contract of the reader-biased lock: the real RBMutex is stepped through its atomic operations and compared with RBMutex.tla (model-checked under C19)."),
  "C02": dict(level="model_checking", ref="4 C02", technique=STORE_T,
    text="TLC checks AcctInv/InFlightBound of Store.tla over all arrival orders of insert/update/delete events, batch boundaries, evictions and the expiry re-check window; "
         "the same interleavings are forced on the real Store by parking its goroutines at hook points (incl. the yield before the deadline re-check); white-box snapshots at quiescent points "
@@ -47,7 +47,7 @@ CHECKS.update({
    technique="TLA+ spec TinyLfu.tla (three regions with recorded sizes/counts, eviction walk, climber clamp, window resizing) model-checked by TLC; every white-box step of the real TinyLfu validated by TLC as a transition of the spec (TinyLfuTrace, exists admit outcomes) with the C07 invariants on every logged state",
    text="TLC checks Structure/Bounds/WithinCap/termination of the eviction walk for capacities 1..4 (5 thorough), all sequences of insert/access/cost-update/remove/resize, every admit outcome and every climber amount; "
         "a seeded white-box driver runs the real policy for capacities 1..8 with arbitrary sketch contents and sample counters, and TLC validates every logged state against the invariants and every transition against TinyLfu.tla.",
-   note="Sketch abstracted to arbitrary admit decisions, float hill-climber arithmetic to an arbitrary integer amount; unbounded capacities are not proved (Apalache run not built)."),
+   note="Sketch abstracted to arbitrary admit decisions, float hill-climber arithmetic to an arbitrary integer amount; the capacity arithmetic alone is also checked for unbounded integers (TinyLfuCaps.tla, inductive invariant with Apalache: window >= 1, protected >= 0, sum conserved for every total capacity and step)."),
  "C08": dict(level="model_checking", ref="4 C08",
    technique="TLA+ spec ReadBuffer.tla (one action per atomic operation of Buffer.Add/Free) model-checked by TLC; TLC schedules replayed step by step on the real buffer by a deterministic scheduler over verif yield hooks; every step compared with the spec and NoInvent/progress validated by TLC (ReadBufferTrace)",
    text="TLC checks NoInvent, token ownership and NoWedge over all interleavings of 2-3 readers on a ring of capacity 2-3 with the batch handed back after an arbitrary delay; random walks of the same spec with the real capacity 16 are executed on the real buffer one atomic step at a time "
@@ -61,7 +61,7 @@ CHECKS.update({
  "C10": dict(level="model_checking", ref="4 C10", technique=STORE_T,
    text="TLC checks the close configuration of Store.tla with deadlock checking on (a call that can never return is a deadlock): writers parked on a full queue, waiters and Close at every point; the schedules are replayed on the real store with the write queue shrunk to 1-2 slots, "
         "free-running histories race Close against every kind of call with a watchdog per call, post-close behaviour is validated by TLC (reads miss, writes have no effect, loading Get fails with the closed error, Wait returns) and a goroutine census after Close must equal the one before the store was created.",
-   note="A hang in a replayed schedule counts only if it reproduces; plain and loading caches (hybrid: see C14/C15)."),
+   note="A hang in a replayed schedule counts only if it reproduces; hybrid caches: Hybrid.tla has Close and the invariant ClosedQuiet (HybridMC_d19.cfg, the design before the repair D19, must violate it), and every history of the hybrid driver ends with Close, Set/Get on every key and a goroutine census, validated by HybridTrace."),
  "C11": dict(level="model_checking", ref="4 C11",
    technique="TLA+ spec Persist.tla (block-level model of SaveCache/LoadCache: metadata, window, protected, probation, end blocks; Load follows Recover block by block) model-checked by TLC over all small caches x targets x elapsed times; real save/load round trips validated by TLC (PersistTrace evaluates Load of the spec on the decoded block list of each real stream and compares)",
    text="TLC enumerates every small saved cache (regions, mixed costs, deadlines), target size and elapsed time and checks the round-trip predicates of Persist.tla; real caches (mixed costs, TTLs on several wheel levels, promotions, adaptive window resizing) are saved, the stream is decoded into its blocks and loaded into caches of the same, smaller and larger size after shifted clock origins; "
@@ -97,7 +97,7 @@ CHECKS.update({
         "the key-family driver builds equal keys along different code paths for ints of several widths, bool, string, pointer, array, struct, struct with StringKey, a non-injective StringKey and concurrent loading Gets of colliding keys, on go1.23.5 (raw-memory hasher) and go1.26.8 (maphash), and TLC validates every Get, Len and Range against the map per key value.",
    note="The type and value space is sampled; only the collision part is exhaustive (model level)."),
  "C19": dict(level="other", ref="4 C19",
-   technique="TLA+ lock-domain table LockTable.tla; lock probes (TryLock / reader slots) recorded at every linearization hook of a running cache validated by TLC against the table; Go race detector over a mixed workload with hooks inert as supplementary oracle",
+   technique="TLA+ spec RBMutex.tla (the shard lock at the grain of its atomic operations) model-checked by TLC (mutual exclusion, counter consistency, deadlock freedom; the three classic holes must violate) and bound by stepping the real RBMutex one hook at a time with every step compared by TLC (RBMutexTrace); TLA+ lock-domain table LockTable.tla; lock probes (TryLock / reader slots) recorded at every linearization hook of a running cache validated by TLC against the table; Go race detector over a mixed workload with hooks inert as supplementary oracle",
    text="The lock domains (shard RW lock for key/value/cost/deadline and the map, policy mutex for links/flags/policy cost/wheel/sketch, both for removal of a map slot by eviction or expiry) are stated as a table in LockTable.tla; while clients, maintenance and ticker run, every hook point probes whether the lock the table requires is held and TLC validates all probes; "
         "in addition the harness is built with -race and runs every API concurrently (SaveCache, Range, Close, loader, listener, hybrid store) with hooks inert, and any race report is a violation.",
    note="A specification observes actions, not memory accesses: the probes bind the locking discipline only at hook points; everything else rests on the race detector run, which is dynamic happens-before analysis and not a TLA+ result."),
